@@ -154,7 +154,7 @@ func init() {
 		},
 		Units: []Unit{
 			{Name: "sm", Pkg: "c07", Run: "^(TestC07StateMachine|TestC07Regressions)$", QuickChecks: 6000, ThoroughChecks: 60000, ThoroughShards: 16, CaseFile: true, Inject: c07Overlay},
-			{Name: "net", Pkg: "c07", Run: "^TestC07StopWithRemoting$", Env: map[string]string{"VERIF_FAILFAST": "1"}, QuickChecks: 20, ThoroughChecks: 150, CaseFile: true, CrashOracle: "no-crash", Inject: c07Overlay, QuickTimeout: 15 * time.Minute, ThoroughTimeout: 60 * time.Minute},
+			{Name: "net", Pkg: "c07", Run: "^TestC07StopWithRemoting$", Env: map[string]string{"VERIF_FAILFAST": "1"}, QuickChecks: 30, ThoroughChecks: 150, CaseFile: true, CrashOracle: "no-crash", Inject: c07Overlay, QuickTimeout: 15 * time.Minute, ThoroughTimeout: 60 * time.Minute},
 			{Name: "tree", Pkg: "c07", Run: "^TestC07StopAnyTree$", QuickChecks: 6000, QuickShards: 4, ThoroughChecks: 80000, ThoroughShards: 16, CaseFile: true, CrashOracle: "no-crash", Inject: c07Overlay},
 			{Name: "spawnstop", Pkg: "c07", Run: "^TestC07SpawnVsStop$", QuickChecks: 3000, ThoroughChecks: 30000, ThoroughShards: 8, CaseFile: true, CrashOracle: "no-crash", Inject: c07Overlay,
 				Windows: map[string][]string{"internal/actor/context.go": {"ActorOf"}}},
@@ -318,7 +318,7 @@ func init() {
 	}
 
 	registry["C04"] = &Check{
-		Rule: "virtual time (synctest): 2-4 actors, 1-8 Asks from the system or from actors, issued at 0-3 ms, timeouts 1-5 ms, the target replying after a delay drawn around the timeout (0, t-1, t, t+1, any), never, twice or with an error value; 1-4 Result/Wait callers per future; Future.PipeTo with 1-3 forwarders at a drawn instant (before, at, after completion); ActorContext.PipeTo; Close(err) at a drawn instant; askers / targets / forwarders terminated at drawn instants (immediate or poison kill; a kill that abandons a restart waiting for a slow child; a kill that releases a zombie; a supervisor's Stop decision); in a third of the cases the system and some actors have their own default Ask timeout (1-6 ms) and Asks are issued without a timeout argument; a second Future.PipeTo call with an overlapping forwarder set right after the first. A reference model computes the earliest completing cause per Ask (ties accept either); oracle: every waiter returned, at exactly the model's virtual instant, with the model's value (own reply id, timeout not before t, actor-dead), all waiters agree, every live forwarder got exactly one matching PipeResult, and the white-box future tables are empty afterwards. Real clock (-race, real threads): 4-16 goroutines x 200 Asks with timeouts 1 ns - 50 ms, PipeTo racing the completion from another goroutine, askers killed while their futures complete; oracle: own reply or timeout, one PipeResult per piped future, tables empty, no race report, process alive. Non-trivial = two completion causes within 1 ms of each other (virtual) / every real-clock round. Distinct = hash of the case.",
+		Rule: "virtual time (synctest): 2-4 actors, 1-8 Asks from the system or from actors, issued at 0-3 ms, timeouts 1-5 ms, the target replying after a delay drawn around the timeout (0, t-1, t, t+1, any), never, twice or with an error value; 1-4 Result/Wait callers per future; Future.PipeTo with 1-3 forwarders at a drawn instant (before, at, after completion); ActorContext.PipeTo; Close(err) at a drawn instant; askers / targets / forwarders terminated at drawn instants (immediate or poison kill; a kill that abandons a restart waiting for a slow child; a kill that releases a zombie; a supervisor's Stop decision); in a third of the cases the system and some actors have their own default Ask timeout (1-6 ms) and Asks are issued without a timeout argument; a second Future.PipeTo call with an overlapping forwarder set right after the first. A reference model computes the earliest completing cause per Ask (ties accept either); oracle: every waiter returned, at exactly the model's virtual instant, with the model's value (own reply id, timeout not before t, actor-dead), all waiters agree, every live forwarder got exactly one matching PipeResult, and the white-box future tables are empty afterwards. Real clock (-race, real threads): 4-16 goroutines x 200 Asks with timeouts 1 ns - 50 ms, PipeTo racing the completion from another goroutine, askers killed while their futures complete; oracle: own reply or timeout, one PipeResult per piped future, tables empty, no race report, process alive. Non-trivial = two completion causes within 1 ms of each other (virtual) / every real-clock round. Distinct = hash of the case. Virtual unit, added: an actor that only asks may be killed and spawned again under its name at the same instant; its later asks are issued by the new incarnation while replies to the old one are still due (a reply must never complete a request of the new incarnation). Unit slowfwd (real clock, remoting enabled): a pending future is piped to a forwarder on a system that refuses connections (the delivery is retried with back-off for seconds on the completing goroutine), then completes by timeout, reply or Close; its 1-3 waiters must return when it completes, not when the delivery ends.",
 		Assumptions: []string{
 			"timeouts are > 0 (non-positive values are documented as 'no timer')",
 			"the real-clock unit samples thread interleavings; the race detector only reports races that occur in an executed schedule",
@@ -327,6 +327,7 @@ func init() {
 		Units: []Unit{
 			{Name: "virt", Pkg: "c04", Run: "^TestC04Asks$", QuickChecks: 8000, ThoroughChecks: 80000, ThoroughShards: 12, CaseFile: true, CrashOracle: "no-crash", Inject: actorOverlay},
 			{Name: "real", Pkg: "c04", Run: "^TestC04RealClock$", Race: true, QuickShards: 2, ThoroughShards: 4, CaseFile: true, CrashOracle: "no-crash", Inject: actorOverlay, QuickTimeout: 10 * time.Minute, ThoroughTimeout: 40 * time.Minute},
+			{Name: "slowfwd", Pkg: "c04", Run: "^TestC04SlowForwarder$", QuickShards: 2, ThoroughShards: 4, CaseFile: true, CrashOracle: "no-crash", Inject: actorOverlay, QuickTimeout: 10 * time.Minute, ThoroughTimeout: 40 * time.Minute},
 		},
 	}
 
